@@ -367,6 +367,52 @@ Section StoredLog.
   Qed.
 End StoredLog.
 
+(* ---------------------------------------------------------------------------------------- *)
+(* the part of [log_wf] the fetcher theorems need: S is the stored next-closure of ANY list of
+   supplied entries (not necessarily the heads of a log) *)
+
+Section StoredClosure.
+  Variable cfg : config.
+  Variable S : list fentry.
+  Variable source : list fentry.
+  Notation sget := (store_get (cf_store cfg)).
+
+  Record closure_wf : Prop := {
+    cw_nodup : NoDup (hashes S);
+    cw_stored : forall e, In e S -> sget (fe_hash e) = Some e;
+    cw_closure : forall h, In h (hashes S) <-> next_reach cfg (hashes source) h;
+    cw_refs : forall e h, In e S -> In h (fe_refs e) -> h <> 0%N -> In h (hashes S);
+    cw_source : incl source S
+  }.
+
+  Hypothesis CW : closure_wf.
+
+  Lemma cw_entry_of_hash h e : In h (hashes S) -> sget h = Some e -> In e S.
+  Proof.
+    intros Hin Hs. apply in_map_iff in Hin. destruct Hin as [e' [<- He']].
+    rewrite (cw_stored CW e' He') in Hs. now injection Hs as <-.
+  Qed.
+
+  Lemma cw_requested_in_S h : requested cfg (hashes source) h -> In h (hashes S).
+  Proof.
+    intros H. induction H as [h Hin Hw|h e h' Hr IH Hg Hin Hw].
+    - apply in_map_iff in Hin. destruct Hin as [e [<- He]]. apply in_map. now apply (cw_source CW).
+    - pose proof (cw_entry_of_hash h e IH Hg) as HeS. apply in_app_or in Hin. destruct Hin as [Hin|Hin].
+      + apply (cw_closure CW). eapply nr_link; eauto. now apply (cw_closure CW).
+      + eapply (cw_refs CW); eauto. apply Hw.
+  Qed.
+End StoredClosure.
+
+Lemma log_wf_closure cfg S heads id : log_wf cfg S heads id -> closure_wf cfg S heads.
+Proof.
+  intros WF. split.
+  - apply (wf_nodup _ _ _ _ WF).
+  - apply (wf_stored _ _ _ _ WF).
+  - apply (wf_closure _ _ _ _ WF).
+  - apply (wf_refs _ _ _ _ WF).
+  - intros e He. now apply (wf_heads_in_S cfg S heads id WF).
+Qed.
+
 Lemma find_hash_Some h l e : find_hash h l = Some e -> In e l /\ fe_hash e = h.
 Proof.
   induction l as [|x l IH]; cbn; [discriminate|]. destruct (N.eqb (fe_hash x) h) eqn:E.
@@ -391,18 +437,22 @@ Section Reload.
 
   Notation same := (same_log S heads id).
 
+  Lemma multihash_heads_incl mheads R e : In e (multihash_heads mheads R) -> In e (ordered_map R).
+  Proof.
+    unfold multihash_heads. intros He. apply in_flat_map in He. destruct He as [h [_ He]].
+    destruct (find_hash h (ordered_map R)) as [e'|] eqn:Ef; [|contradiction].
+    destruct He as [<-|[]]. now apply find_hash_Some in Ef.
+  Qed.
+
   Lemma reload_multihash R mheads :
     Permutation R S -> (forall h, In h mheads <-> In h (hashes heads)) ->
     same (load_multihash id mheads (-1) R).
   Proof.
     intros Hp Hm. pose proof (perm_nodup_hashes cfg S heads id WF R Hp) as Hnd.
     unfold load_multihash. assert (E : -1 <? -1 = false) by reflexivity. rewrite E.
-    rewrite (ordered_map_id R Hnd).
     apply (new_log_heads cfg S heads id WF); [assumption| |].
-    - intros e He. apply in_flat_map in He. destruct He as [h [_ He]].
-      destruct (find_hash h R) as [e'|] eqn:Ef; [|contradiction].
-      destruct He as [<-|[]]. now apply find_hash_Some in Ef.
-    - intros e. split.
+    - intros e He. apply multihash_heads_incl in He. now rewrite (ordered_map_id R Hnd) in He.
+    - unfold multihash_heads. rewrite (ordered_map_id R Hnd). intros e. split.
       + intros He. apply in_flat_map in He. destruct He as [h [Hh He]].
         destruct (find_hash h R) as [e'|] eqn:Ef; [|contradiction].
         destruct He as [<-|[]]. apply find_hash_Some in Ef. destruct Ef as [HeR Heq].
@@ -431,30 +481,52 @@ Section Reload.
 
   Lemma reload_json R : Permutation R S -> same (load_json id (-1) R).
   Proof.
-    intros Hp. unfold load_json. apply (new_log_noheads cfg S heads id WF).
+    intros Hp. unfold load_json. assert (E : -1 <? -1 = false) by reflexivity. rewrite E.
+    apply (new_log_noheads cfg S heads id WF).
     rewrite <- Hp. apply sort_go_perm.
+  Qed.
+
+  (* fromEntry without limit: the (de-duplicated) sources followed by the other fetched entries *)
+  Lemma from_entry_unbounded_perm R source :
+    Permutation R S -> incl source S ->
+    Permutation (from_entry_values (-1) source R) S.
+  Proof.
+    intros Hp Hsrc. unfold from_entry_values, entry_fetch_len.
+    assert (E : -1 <? -1 = false) by reflexivity. rewrite E. rewrite E.
+    pose proof (perm_nodup_hashes cfg S heads id WF R Hp) as HndR.
+    rewrite (ordered_map_id R HndR).
+    set (src := ordered_map source).
+    set (oth := filter (fun e => negb (has_hash (fe_hash e) src)) R).
+    assert (Hsrc' : incl src S) by (intros e He; apply Hsrc; now apply ordered_map_In).
+    apply perm_of_hashes.
+    - rewrite map_app. apply NoDup_app_intro; [apply ordered_map_nodup| |].
+      + eapply Permutation_NoDup; [apply Permutation_map; symmetry; apply sort_go_perm|].
+        now apply filter_hashes_nodup.
+      + intros h Hh Hh2. apply in_map_iff in Hh. destruct Hh as [e [<- He]].
+        apply (Permutation_in _ (sort_go_perm fentry cmp_clock false oth)) in He.
+        apply filter_In in He. destruct He as [_ Hf]. apply negb_true_iff in Hf.
+        apply has_hash_In in Hh2. congruence.
+    - apply (wf_nodup _ _ _ _ WF).
+    - intros e He. apply in_app_or in He. destruct He as [He|He]; [now apply Hsrc'|].
+      apply (Permutation_in _ (sort_go_perm fentry cmp_clock false oth)) in He.
+      apply filter_In in He. eapply Permutation_in; [exact Hp|tauto].
+    - intros h Hh. rewrite map_app. apply in_or_app.
+      destruct (has_hash h src) eqn:Eh; [left; now apply has_hash_In|right].
+      apply in_map_iff in Hh. destruct Hh as [e [<- He]]. apply in_map.
+      apply (Permutation_in _ (Permutation_sym (sort_go_perm fentry cmp_clock false oth))).
+      apply filter_In. split; [eapply Permutation_in; [symmetry; exact Hp|exact He]|].
+      now rewrite Eh.
   Qed.
 
   Lemma reload_entry R source :
     Permutation R S -> (forall e, In e source <-> In e heads) -> heads <> [] ->
     exists l', load_entry (-1) source R = Some l' /\ same l'.
   Proof.
-    intros Hp Hsrc Hne. unfold load_entry, from_entry_values, entry_fetch_len.
-    assert (E : -1 <? -1 = false) by reflexivity. rewrite E. rewrite E.
-    set (U := sort_go cmp_clock false (ordered_map (source ++ R))).
-    assert (HpU : Permutation U S).
-    { subst U. rewrite (sort_go_perm fentry cmp_clock false).
-      apply ordered_map_perm; [apply (wf_nodup _ _ _ _ WF)| |].
-      - intros e He. apply in_app_or in He. destruct He as [He|He].
-        + apply (wf_heads_in_S cfg S heads id WF). now apply Hsrc.
-        + eapply Permutation_in; eauto.
-      - intros h Hh. rewrite map_app. apply in_or_app. right.
-        eapply Permutation_in; [apply Permutation_map; symmetry; exact Hp|exact Hh]. }
-    assert (Hmiss : difference U source = []).
-    { unfold difference. apply difference_from_nil. intros v Hv.
-      eapply Permutation_in; [apply Permutation_map; symmetry; exact HpU|].
-      apply in_map. apply (wf_heads_in_S cfg S heads id WF). now apply Hsrc. }
-    rewrite Hmiss. cbn [app]. change (zlen (@nil fentry)) with 0. rewrite entry_slice_range_all.
+    intros Hp Hsrc Hne. unfold load_entry.
+    assert (Hin : incl source S).
+    { intros e He. apply (wf_heads_in_S cfg S heads id WF). now apply Hsrc. }
+    pose proof (from_entry_unbounded_perm R source Hp Hin) as HpU.
+    set (U := from_entry_values (-1) source R) in *.
     destruct (last_opt U) as [l|] eqn:El.
     - exists (new_log (fe_logid l) U []). split; [reflexivity|].
       assert (Hl : fe_logid l = id).
